@@ -221,6 +221,26 @@ def container_models(I, st, caller, func, args, argtys, dest_ty):
                             outs.append(Outcome("return", EnumV("Result", 1, {1: items[i].payloads.get(1, (Opaque("error"),))}), s4))
             elif target.startswith("HashSet<"):
                 outs.append(Outcome("return", Agg("hashset", None, tuple(deref_all(I, s2, x) for x in items)), s2))
+            elif target.startswith(("BTreeMap<", "HashMap<")):
+                # insert the (key, value) pairs one by one: a later equal key replaces the earlier value
+                from . import parser as P
+                kind = "btreemap" if target.startswith("BTreeMap<") else "hashmap"
+                keyty = P.split_top(target[target.index("<") + 1:-1], ",")[0]
+                work = [(s2, 0, [])]
+                while work:
+                    s3, i, ents = work.pop()
+                    if i == len(items):
+                        outs.append(Outcome("return", Agg(kind, None, tuple(ents)), s3))
+                        continue
+                    kv = deref_all(I, s3, items[i])
+                    k_, v_ = kv.fields
+                    for s4, j in lookup(I, s3.fork(), caller, keyty, ents, k_):
+                        e2 = list(ents)
+                        if j is None:
+                            e2.append(Agg("tuple", None, (k_, v_)))
+                        else:
+                            e2[j] = Agg("tuple", None, (e2[j].fields[0], v_))
+                        work.append((s4, i + 1, e2))
             else:
                 raise Unencodable("collect into " + target)
         return outs
@@ -419,6 +439,21 @@ def map_models(I, st, caller, func, args, argtys, dest_ty):
                         I.store(s2, args[0], Agg("hashset", None, tuple(hs.fields) + (deref_all(I, s2, args[1]) if isinstance(args[1], Ref) else args[1],)))
                     outs.append(Outcome("return", z3.BoolVal(i is None), s2))
             return outs
+    m = re.match(r"^BTreeMap::<.*>::(into_values|into_keys)$", f)
+    if m:
+        mp = args[0]
+        n = len(mp.fields)
+        import itertools
+        outs = []
+        for perm in itertools.permutations(range(n)):
+            ks = [deref_all(I, st, mp.fields[p].fields[0]) for p in perm]
+            cond = z3.And([ks[j] < ks[j + 1] for j in range(n - 1)]) if n > 1 else z3.BoolVal(True)
+            if I.feasible(st, cond):
+                s2 = st.fork()
+                s2.assume(cond)
+                fi = 1 if m.group(1) == "into_values" else 0
+                outs.append(Outcome("return", mk_iter(Agg("vec", None, tuple(mp.fields[p].fields[fi] for p in perm)), 0, "own"), s2))
+        return outs
     if re.match(r"^<HashSet<.*> as IntoIterator>::into_iter$", f):
         hs = args[0]
         return ret(st, mk_iter(Agg("vec", None, hs.fields), 0, "own"))
